@@ -8,6 +8,16 @@ CODECS = ['ber', 'der', 'uper', 'per', 'oer', 'jer', 'xer', 'gser']
 
 
 def in_range(c, n):
+    """A constraint applied in series (c['series'], outermost parent first:
+    constraints written at reference sites on top of the referenced type's own)
+    admits a value iff every constraint of the series does (X.680 50; mirror of
+    Check/Serial.v admits_series); an extensible constraint excludes nothing."""
+    if c is not None and c.get('series'):
+        return all(in_range1(x, n) for x in c['series'])
+    return in_range1(c, n)
+
+
+def in_range1(c, n):
     if c is None or c['ext']:
         return True
     if c['lo'] is not None and n < c['lo']:
@@ -82,6 +92,11 @@ def violations(rt_of, t, v, names=()):
     return out
 
 
+def series_sig(c):
+    """'nx', 'xn', 'nxn', ...: extensible / non-extensible flags of a series."""
+    return '/' + ''.join('x' if x['ext'] else 'n' for x in c['series'])
+
+
 def outside_char(t):
     """A character the component must reject, or None."""
     sk = t['sk']
@@ -143,6 +158,16 @@ def boundary_mutants(gen, rng, rt_of, t, v, max_list=40, max_len=70001):
                 continue
             for d in (-1, 0, 1):
                 out.append(('int:%s%+d%s' % (which, d, 'x' if c['ext'] else ''), b + d))
+        # every bound of every constraint applied in series (referenced type's own, reference sites)
+        have = set(x for _, x in out)
+        for i, sc in enumerate(c.get('series') or []):
+            for which in ('lo', 'hi'):
+                if sc[which] is not None:
+                    for d in (-1, 0, 1):
+                        if sc[which] + d not in have:
+                            have.add(sc[which] + d)
+                            out.append(('int:ser%d%s%s:%s%+d' % (i, 'x' if sc['ext'] else 'n', series_sig(c), which, d),
+                                        sc[which] + d))
         return out
     if k in ('OCTET STRING', 'BIT STRING', 'STRING', 'SEQUENCE OF', 'SET OF'):
         s = t['size']
@@ -159,6 +184,15 @@ def boundary_mutants(gen, rng, rt_of, t, v, max_list=40, max_len=70001):
                 for d in (-1, 0, 1):
                     if b + d >= 0:
                         lens.append(('size:%s%+d%s' % (which, d, 'x' if s['ext'] else ''), b + d))
+            have = set(x for _, x in lens)
+            for i, sc in enumerate(s.get('series') or []):
+                for which in ('lo', 'hi'):
+                    if sc[which] is not None:
+                        for d in (-1, 0, 1):
+                            if sc[which] + d >= 0 and sc[which] + d not in have:
+                                have.add(sc[which] + d)
+                                lens.append(('size:ser%d%s%s:%s%+d' % (i, 'x' if sc['ext'] else 'n', series_sig(s),
+                                                                      which, d), sc[which] + d))
         for label, n in lens:
             if n > (max_list if k.endswith('OF') else max_len):
                 continue
